@@ -257,12 +257,13 @@ def callCreate (ops : FOps) (s : Schema) (x : Snap) : M Nat := do
 
 /-- `track_impl::update(snapshot)`: `snapshot_to_row`, `row.id = id()`, then the
 whole-row `UPDATE` of `track_table::update` — which writes `originDatabaseUuid`
-and `originTrackId = 0` too (the trigger repairs them) and does not look at
-`rows_modified()`. -/
+and `originTrackId = 0` too (the trigger repairs them) — and, since the `fix:`
+"2.x track::update on a removed track returned normally", the test of
+`rows_modified()`: no row ⇒ `track_deleted` (as the 1.x `update` since 353e3ca). -/
 def callUpdate (ops : FOps) (s : Schema) (id : Nat) (x : Snap) : M Unit := do
   let r ← M.lift (writeStore ops s x)
-  let _ ← M.stmt fun db => db.updateStmt id fun t => { t with row := r, originUuid := db.uuid, originId := 0 }
-  pure ()
+  let n ← M.stmt fun db => db.updateStmt id fun t => { t with row := r, originUuid := db.uuid, originId := 0 }
+  if n = 0 then M.throw (.dj "track_deleted") else pure ()
 
 /-- `database_impl::remove_track`: inside one transaction the memberships of
 the track are removed (none in this model) and then `track_table::remove`:
